@@ -398,21 +398,21 @@ def translator_tie(specs):
                     os.remove(os.path.join(gen_dir, f))
             path = os.path.join(REPO, sp["rust"])
             try:
-                txt, res, _, _ = rs2v.translate_file(path, sp["gen"], set(sp["fns"]), sp.get("types", "Model.Types"),
+                txt, res, _, _ = rs2v.translate_file(path, sp["gen"], set(sp["fns"]) | set(sp.get("stmts", {})) | set(sp.get("aux", [])), sp.get("types", "Model.Types"),
                                                     sp.get("extra_structs"), sp.get("extra_enums"))
             except Exception as e:  # noqa
-                for fn in sp["fns"]:
+                for fn in list(sp["fns"]) + list(sp.get("stmts", {})):
                     items.append(("%s.%s" % (sp["gen"], fn), False, "translator failed on %s: %r" % (sp["rust"], e)))
                 continue
             gpath = os.path.join(gen_dir, sp["gen"] + ".v")
             open(gpath, "w").write(txt)
             rc, out, err = run(["timeout", "300", "coqc", "-noglob", "-Q", COQ, "EG", gpath], cwd=COQ)
             if rc != 0:
-                for fn in sp["fns"]:
+                for fn in list(sp["fns"]) + list(sp.get("stmts", {})):
                     items.append(("%s.%s" % (sp["gen"], fn), False, "generated file does not compile: " + (err or out)[-400:]))
                 continue
             procs = []
-            names = [(fn, "@EG.Gen.%s.%s" % (sp["gen"], fn), "@EG.%s.%s" % (sp["model"], fn)) for fn in sp["fns"]]
+            names = [(fn, "@EG.Gen.%s.%s" % (sp["gen"], fn), "@EG.%s.%s" % (sp["model"], fn)) for fn in sp["fns"] if fn not in sp.get("stmts", {})]
             names += [("fields_" + t, "EG.Gen.%s.fields_%s" % (sp["gen"], t), "EG.Model.Types.fields_%s" % t) for t in sp.get("fields", [])]
             for fn, g, m in names:
                 if res.get(fn) is not None and not fn.startswith("fields_"):
@@ -422,6 +422,19 @@ def translator_tie(specs):
                 open(tpath, "w").write(
                     "From EG Require Import Num.Num Model.Types %s Gen.%s.\n"
                     "Lemma tie : %s = %s.\nProof. reflexivity. Qed.\n" % (sp["model"], sp["gen"], g, m))
+                p = subprocess.Popen(["timeout", "120", "coqc", "-noglob", "-Q", COQ, "EG", tpath], cwd=COQ,
+                                     stdout=subprocess.PIPE, stderr=subprocess.PIPE, text=True)
+                procs.append((fn, p))
+            # functions whose model counterpart has another name or another record type: an explicit statement, proved by conversion
+            for fn, stmt in sp.get("stmts", {}).items():
+                if res.get(fn) is not None:
+                    items.append(("%s.%s" % (sp["gen"], fn), False, res[fn]))
+                    continue
+                tpath = os.path.join(gen_dir, "tie_%s_%s.v" % (sp["gen"], fn))
+                open(tpath, "w").write(
+                    "From EG Require Import Num.Num Lib.Vec Model.Types %s Gen.%s.\n"
+                    "Lemma tie : %s.\nProof. intros; reflexivity. Qed.\n" % (sp["model"], sp["gen"],
+                        stmt.replace("{G}", "EG.Gen.%s" % sp["gen"]).replace("{M}", "EG.%s" % sp["model"])))
                 p = subprocess.Popen(["timeout", "120", "coqc", "-noglob", "-Q", COQ, "EG", tpath], cwd=COQ,
                                      stdout=subprocess.PIPE, stderr=subprocess.PIPE, text=True)
                 procs.append((fn, p))
